@@ -313,9 +313,13 @@ class G:
         params = []
         dynamic = False
         dyn_params: list = []
+        force_next = False
         for si in range(nslots):
             last_slot = si == nslots - 1
             r = self.d(st.integers(0, 99))
+            forced_explicit = False
+            if force_next:
+                r, force_next, forced_explicit = 67, False, True     # a plain integer parameter with explicit position
             slot_tail = tail and last_slot
             if not dynamic:
                 if r < 12:
@@ -489,6 +493,12 @@ class G:
                 dop, val, size = self.complex(depth - 1, must_static or False, slot_tail and not must_static,
                                               dynamic_ctx=dynamic)
                 bit = 0
+            elif complex_ok and not must_static and not dynamic and not last_slot and r in (55, 56, 57) \
+                    and self.opts.get("mux_bounded", True):
+                dop, val, size = self.complex(depth - 1, False, False, dynamic_ctx=False, force="mux", bounded=True)
+                bit = 0
+                force_next = True
+                self.features.add("mux-followed-by-explicit-position")
             elif r < 62 or must_static or (r < 80):
                 if r % 5 == 0:
                     dop = self.float_dop()
@@ -542,6 +552,10 @@ class G:
                     self.features.add("gap")
                 p["pos"] = pos + gap
                 p["_end"] = pos + gap + size
+                if forced_explicit:
+                    p["_explicit"] = True
+                if dop["k"] == "mux":
+                    p["_noimp"] = True      # the parameter listed behind it must not rely on the cursor
                 static_layout.append(p)
                 pos += gap + size
             if p.get("default") is not None and self.chance(60):
@@ -575,15 +589,19 @@ class G:
                     order.append(q)
                     self.features.add("last-listed-not-last")
         cursor = 0
+        prev_noimp = False
         for q in order:
-            if q["pos"] == cursor and self.chance(45):
+            if q["pos"] == cursor and not prev_noimp and not q.get("_explicit") and self.chance(45):
                 q["pos"] = None
                 self.features.add("implicit-pos")
             cursor = q["_end"]
+            prev_noimp = bool(q.get("_noimp"))
         static_end = pos
         out = order + dyn_params
         for q in out:
             q.pop("_end", None)
+            q.pop("_explicit", None)
+            q.pop("_noimp", None)
         if not out:
             dop = self.simple_int_dop(16)
             val = self.simple_value(dop)
@@ -742,7 +760,42 @@ class G:
         self.features.add("struct")
         return st_, values, size
 
-    def complex(self, depth: int, must_static: bool, tail: bool, dynamic_ctx: bool):
+    def item_struct_lengthkey(self, owner: str):
+        """field item made of a LENGTH-KEY and a PARAM-LENGTH-INFO value (key left implicit)"""
+        kname = self.nid("lk")
+        kdop = {"k": "simple", "id": self.nid("dop"),
+                "dct": {"t": "std", "bt": "A_UINT32", "bl": 8, "enc": None, "hl": None},
+                "compu": {"c": "IDENTICAL"}, "pt": "A_UINT32"}
+        bt = self.pick(["A_BYTEFIELD", "A_UINT32", "A_UINT32", "A_UTF8STRING"])
+        pdct = {"t": "paramlen", "bt": bt, "key": kname, "enc": None, "hl": None}
+        pdop = {"k": "simple", "id": self.nid("dop"), "dct": pdct, "compu": {"c": "IDENTICAL"},
+                "pt": {"A_BYTEFIELD": "A_BYTEFIELD", "A_UINT32": "A_UINT32"}.get(bt, "A_UNICODE2STRING")}
+        self.features.add(f"{owner}-lengthkey-items")
+        self.features.add("dct:paramlen")
+        self.features.add("struct")
+        return {"k": "struct", "id": self.nid("st"), "bs": None, "params": [
+            {"pk": "lenkey", "name": kname, "id": self.nid("lkid"), "pos": 0, "bit": 0, "dop": kdop},
+            {"pk": "value", "name": self.nid("p"), "pos": None, "bit": 0, "dop": pdop, "default": None}]}
+
+    def item_struct_terminated(self, owner: str):
+        """field item ending in a terminated MIN-MAX value"""
+        lead = {"k": "simple", "id": self.nid("dop"),
+                "dct": {"t": "std", "bt": "A_UINT32", "bl": 8, "enc": None, "hl": None},
+                "compu": {"c": "IDENTICAL"}, "pt": "A_UINT32"}
+        bt = self.pick(["A_BYTEFIELD", "A_ASCIISTRING", "A_UNICODE2STRING"])
+        unit = 2 if bt == "A_UNICODE2STRING" else 1
+        mdct = {"t": "minmax", "bt": bt, "min": 0, "max": self.pick([None, None, 4 * unit]),
+                "term": self.pick(["ZERO", "HEX-FF"]), "enc": None, "hl": self.pick([None, False])}
+        mdop = {"k": "simple", "id": self.nid("dop"), "dct": mdct, "compu": {"c": "IDENTICAL"},
+                "pt": "A_BYTEFIELD" if bt == "A_BYTEFIELD" else "A_UNICODE2STRING"}
+        self.features.add(f"{owner}-terminated-items")
+        self.features.add("dct:minmax")
+        self.features.add("struct")
+        return {"k": "struct", "id": self.nid("st"), "bs": None, "params": [
+            {"pk": "value", "name": self.nid("p"), "pos": 0, "bit": 0, "dop": lead, "default": None},
+            {"pk": "value", "name": self.nid("p"), "pos": None, "bit": 0, "dop": mdop, "default": None}]}
+
+    def complex(self, depth: int, must_static: bool, tail: bool, dynamic_ctx: bool, force=None, bounded: bool = False):
         kinds = ["struct", "struct", "sfield"]
         if self.opts.get("emfield", True):
             kinds += ["emfield"]
@@ -754,6 +807,8 @@ class G:
         if focus in kinds:
             kinds = kinds + [focus] * (2 * len(kinds))      # a generator biased towards one kind of complex DOP
         k = self.pick(kinds)
+        if force is not None:
+            k = force
         if k == "emfield":
             return self.emfield(tail and not must_static)
         if k == "struct":
@@ -866,6 +921,14 @@ class G:
             if n >= 2:
                 self.features.add("field>=2")
             return {"k": "eopf", "id": self.nid("eo"), "st": s, "min": None, "max": None}, vals, None
+        if k == "eopf" and self.opts.get("eopf_dynamic_items", True) and self.chance(35):
+            # items of dynamic size: only the very last item of the field is "at the end of the PDU"
+            s = self.item_struct_terminated("eopf") if self.chance(60) else self.item_struct_lengthkey("eopf")
+            n = self.d(st.integers(2, 3))
+            vals = [self.values_for_struct(s) for _ in range(n)]
+            self.features.add("eopf")
+            self.features.add("field>=2")
+            return {"k": "eopf", "id": self.nid("eo"), "st": s, "min": None, "max": None}, vals, None
         if k == "eopf":
             s, _, size = self.struct(0, True, False)
             if not size:
@@ -886,14 +949,18 @@ class G:
             bp = ksz + self.pick([0, 0, 1])
             cases, lo = [], self.pick([0, 0, 0, 1, 2, 3])
             hi_max = (1 << kbits) - 1
-            allow_nostruct = tail or self.opts.get("mux_nostruct_anywhere")
+            # bounded: every case has a fixed size, so the whole multiplexer fits into a known number of bytes and
+            # a parameter with an explicit BYTE-POSITION can follow it (the cursor behind the mux is then immaterial)
+            allow_nostruct = tail or self.opts.get("mux_nostruct_anywhere") or bounded
+            csizes = [ksz]
             for c in range(self.d(st.integers(1, 3))):
                 hi = min(hi_max, lo + self.pick([0, 0, 1, 2]))
                 if lo > hi_max:
                     break
                 cs = None
-                if not (allow_nostruct and self.chance(15)):
-                    cs, _, _ = self.struct(0, not tail and self.chance(70), tail)
+                if not (allow_nostruct and self.chance(35 if bounded else 15)):
+                    cs, _, csz = self.struct(0, True if bounded else (not tail and self.chance(70)), False if bounded else tail)
+                    csizes.append(bp + (csz or 0))
                 else:
                     self.features.add("mux-case-without-structure")
                 cases.append({"name": f"c{c}", "lo": lo, "hi": hi, "st": cs, "snref": self.chance(30)})
@@ -915,20 +982,22 @@ class G:
             if free_keys and self.opts.get("mux_default", True) and self.chance(30):
                 ds = None
                 if self.chance(80):
-                    ds, _, _ = self.struct(0, not tail and self.chance(70), tail)
+                    ds, _, dsz = self.struct(0, True if bounded else (not tail and self.chance(70)), False if bounded else tail)
+                    csizes.append(bp + (dsz or 0))
                 default = {"name": "dflt", "st": ds}
                 self.features.add("mux-default-case")
             muxdop = {"k": "mux", "id": self.nid("mx"), "bp": bp, "key": {"dop": kdop, "bp": 0, "bit": kbit},
                       "cases": cases, "default": default}
             self.features.add("mux")
+            msize = max(csizes) if bounded else None
             if default is not None and self.chance(50):
                 content = self.values_for_struct(default["st"]) if default["st"] is not None else {}
                 if self.opts.get("mux_default_by_name", True) and self.chance(50):
                     # selected by its name: the key value is chosen by odxtools (C01 self-consistency only)
                     self.features.add("mux-default-by-name")
-                    return muxdop, ["dflt", content], None
+                    return muxdop, ["dflt", content], msize
                 self.features.add("mux-default-selected")
-                return muxdop, [self.pick(free_keys), content], None
+                return muxdop, [self.pick(free_keys), content], msize
             case = self.pick(cases)
             content = self.values_for_struct(case["st"]) if case["st"] is not None else {}
             form = self.d(st.integers(0, 9))
@@ -938,7 +1007,7 @@ class G:
                 kv = self.d(st.integers(case["lo"], case["hi"]))
                 val = [kv, content]
                 self.features.add("mux-by-key")
-            return muxdop, val, None
+            return muxdop, val, msize
         raise AssertionError(k)
 
     # ------------------------------------------------------------------ values for an existing structure
